@@ -197,7 +197,23 @@ ASSIGNABLE = {"I": ["i0", "i1", "i2"], "F": ["f0"], "S": ["s0"], "A": ["a0"], "M
 @st.composite
 def stmt(draw, depth, ctx):
     """ctx: dict(in_loop, in_switch, loopvars free list, helpers)"""
-    k = draw(st.integers(0, 14))
+    k = draw(st.integers(0, 15))
+    if k == 15 and ctx["loopvars"] and depth > 0 and not ctx["in_switch"]:
+        # sweep: a loop takes the subject through every label of a sparse / range table in turn; each arm adds its own weight
+        v = ctx["loopvars"][0]
+        vals = sorted(set(draw(st.lists(st.integers(-40, 90), min_size=2, max_size=20))))
+        labels, i = [], 0
+        while i < len(vals):
+            if i + 1 < len(vals) and draw(st.integers(0, 3)) == 0:
+                labels.append(["range", vals[i], vals[i + 1]]); i += 2
+            else:
+                labels.append(["case", vals[i]]); i += 1
+        arms = [[[lab], [["assign", ["v", "I", "i1"], "+=", lit("I", 3 + 7 * n)]]] for n, lab in enumerate(labels)]
+        hasdef = draw(st.booleans())
+        if hasdef:
+            arms.append([[["default"]], [["assign", ["v", "I", "i2"], "+=", lit("I", 1)]]])
+        sw = ["switch", ["idx", "I", lit("A", vals), var("I", v)], arms, hasdef]
+        return ["for", v, lit("I", 0), lit("I", len(vals)), [sw]]
     if k == 14 and ctx["loopvars"] and depth > 0:
         # grow m0 pair by pair through '+=' (sibling spellings: m0 = m0 + ..., and the loop forms), crossing the hash-table growth points
         v = ctx["loopvars"][0]
@@ -258,15 +274,18 @@ def stmt(draw, depth, ctx):
         sT = draw(st.sampled_from(["I", "I", "S"]))
         sub = dict(ctx, in_switch=True, in_loop=False)
         if sT == "I":
-            e = draw(st.one_of(iexpr(2), st.just(["bin", "I", "&", var("I", "a"), lit("I", 15)]), st.just(var("I", "i0"))))
             style = draw(st.sampled_from(["dense", "sparse", "ranges"]))
             if style == "dense":
                 base = draw(st.integers(-3, 5))
                 vals = [base + i for i in range(draw(st.integers(1, 8)))]
             elif style == "sparse":
-                vals = sorted(set(draw(st.lists(st.one_of(st.integers(-50, 50), st.sampled_from(IBOUND)), min_size=1, max_size=7))))
+                vals = sorted(set(draw(st.lists(st.one_of(st.integers(-50, 50), st.sampled_from(IBOUND)), min_size=1, max_size=16))))
             else:
-                vals = sorted(set(draw(st.lists(st.integers(-20, 40), min_size=2, max_size=10))))
+                vals = sorted(set(draw(st.lists(st.integers(-20, 60), min_size=2, max_size=24))))
+            # the subject is often exactly one of the labels, computed at run time (every entry of the searched table has to be found)
+            e = draw(st.one_of(iexpr(2), st.just(["bin", "I", "&", var("I", "a"), lit("I", 15)]), st.just(var("I", "i0")),
+                               st.sampled_from(vals).map(lambda v: ["bin", "I", "+", lit("I", v), ["bin", "I", "&", var("I", "a"), lit("I", 0)]]),
+                               st.sampled_from(vals).map(lambda v: ["bin", "I", "+", lit("I", v), ["bin", "I", "&", var("I", "b"), lit("I", 0)]])))
             labels = []
             i = 0
             while i < len(vals):
@@ -275,7 +294,7 @@ def stmt(draw, depth, ctx):
                 else:
                     labels.append(["case", vals[i]]); i += 1
         else:
-            vals = sorted(set(draw(st.lists(st.sampled_from(SBOUND + ["b", "ab", "hello", "m" * 120, "k" * 700, "q" * 300]), min_size=1, max_size=8))))
+            vals = sorted(set(draw(st.lists(st.sampled_from(SBOUND + ["b", "ab", "hello", "m" * 120, "k" * 230, "q" * 180]), min_size=1, max_size=8))))
             # the subject is often one of the labels (the table is searched by string address: every label has to be found)
             e = draw(st.one_of(sexpr(1), st.sampled_from(vals).map(lambda v: lit("S", v)), st.sampled_from(vals).map(lambda v: ["bin", "S", "+", lit("S", v[:1]), lit("S", v[1:])])))
             labels = [["case", v] for v in vals]
@@ -811,7 +830,7 @@ def check(ctx, w, p):
 
 def shard_main(ctx):
     from hypothesis import given
-    n = {"quick": 450, "thorough": 25000}[ctx.tier]
+    n = {"quick": 800, "thorough": 25000}[ctx.tier]
 
     @given(programs())
     def test(p):
